@@ -2,6 +2,7 @@ import SemVerif.Lemmas.FlowLay
 import SemVerif.Lemmas.T2Fn
 import SemVerif.Lemmas.ExtEvents
 import SemVerif.Spec.Findings
+import SemVerif.Lemmas.FlowF2
 import SemVerif.Props.C10Res
 /-!
 # Lemmas/FlowAna — the analyzer emits laid-out code (family T4, analyzer half)
@@ -545,6 +546,25 @@ def PassV (K : LoopK) (s s' : St) (p : List Flow × Nat) (l0 : Name) : Prop :=
   ∃ seg, s'.root.context = s.root.context ++ seg ∧ p.2 = effCount s.root.context + effCount seg ∧
     Lay K (effCount s.root.context) p.1 seg (.jump l0)
 
+theorem PassV.eff {K : LoopK} {s s' : St} {p : List Flow × Nat} {l0 : Name} (h : PassV K s s' p l0) :
+    effCount s'.root.context = p.2 := by
+  obtain ⟨seg, h1, h2, _⟩ := h
+  rw [h1, effCount_append, h2]
+
+/-- finding F2: a nested `if` that was handed the end label of the enclosing body leaves by a jump
+to it, so whatever the body emits afterwards is dead code -/
+theorem bodyj_dead {K : LoopK} {s s1 : St} {res : St × Bool} {p1 p2 : List Flow × Nat} {lEnd : Name}
+    (h1 : PassV K s s1 p1 lEnd) (h2 : BodyJ K s1 res p2 lEnd) : BodyJ K s res (p1.1, p2.2) lEnd := by
+  obtain ⟨seg1, c1, n1, l1⟩ := h1
+  obtain ⟨seg2, c2, n2, _⟩ := h2
+  have hb : effCount s1.root.context = effCount s.root.context + effCount seg1 := by rw [c1, effCount_append]
+  refine ⟨seg1 ++ seg2, by rw [c2, c1, List.append_assoc], ?_, ?_⟩
+  · dsimp only
+    rw [n2, hb, effCount_append]; omega
+  · dsimp only
+    rw [List.append_assoc]
+    exact Lay.dead _ l1
+
 section control
 variable {g : Globals} {R : Ty} {rg : RGlobals}
 
@@ -705,106 +725,110 @@ theorem lay_loopWrap (k : Name → Name → Bool → Bool → Bool → St → St
 
 /-! ### Unfolding the lowering -/
 
-theorem low_ifb_let (b : LetB) (tl : List IfBodyStmt) (n : Nat) : IfBodyStmt.lowerL (.letB b :: tl) n =
-    ((lowerLet b n).1 ++ (IfBodyStmt.lowerL tl (lowerLet b n).2).1, (IfBodyStmt.lowerL tl (lowerLet b n).2).2) := by
+theorem low_ifb_let (b : LetB) (tl : List IfBodyStmt) (n : Nat) : IfBodyStmt.lowerL true (.letB b :: tl) n =
+    ((lowerLet b n).1 ++ (IfBodyStmt.lowerL true tl (lowerLet b n).2).1, (IfBodyStmt.lowerL true tl (lowerLet b n).2).2) := by
   rw [IfBodyStmt.lowerL]
-theorem low_ifb_bind (b : Bind) (tl : List IfBodyStmt) (n : Nat) : IfBodyStmt.lowerL (.bind b :: tl) n =
-    ((lowerBind b n).1 ++ (IfBodyStmt.lowerL tl (lowerBind b n).2).1, (IfBodyStmt.lowerL tl (lowerBind b n).2).2) := by
+theorem low_ifb_bind (b : Bind) (tl : List IfBodyStmt) (n : Nat) : IfBodyStmt.lowerL true (.bind b :: tl) n =
+    ((lowerBind b n).1 ++ (IfBodyStmt.lowerL true tl (lowerBind b n).2).1, (IfBodyStmt.lowerL true tl (lowerBind b n).2).2) := by
   rw [IfBodyStmt.lowerL]
-theorem low_ifb_call (c : CallS) (tl : List IfBodyStmt) (n : Nat) : IfBodyStmt.lowerL (.call c :: tl) n =
-    ((lowerCallS c n).1 ++ (IfBodyStmt.lowerL tl (lowerCallS c n).2).1, (IfBodyStmt.lowerL tl (lowerCallS c n).2).2) := by
+theorem low_ifb_call (c : CallS) (tl : List IfBodyStmt) (n : Nat) : IfBodyStmt.lowerL true (.call c :: tl) n =
+    ((lowerCallS c n).1 ++ (IfBodyStmt.lowerL true tl (lowerCallS c n).2).1, (IfBodyStmt.lowerL true tl (lowerCallS c n).2).2) := by
   rw [IfBodyStmt.lowerL]
-theorem low_ifb_if (i : IfStmt) (tl : List IfBodyStmt) (n : Nat) : IfBodyStmt.lowerL (.ifS i :: tl) n =
-    ((IfStmt.lower i n).1 ++ (IfBodyStmt.lowerL tl (IfStmt.lower i n).2).1, (IfBodyStmt.lowerL tl (IfStmt.lower i n).2).2) := by
+theorem low_ifb_if (i : IfStmt) (tl : List IfBodyStmt) (n : Nat) : IfBodyStmt.lowerL true (.ifS i :: tl) n =
+    (if tl.isEmpty then (IfStmt.lower true i n).1 ++ (IfBodyStmt.lowerL true tl (IfStmt.lower true i n).2).1 else (IfStmt.lower true i n).1,
+      (IfBodyStmt.lowerL true tl (IfStmt.lower true i n).2).2) := by
   rw [IfBodyStmt.lowerL]
-theorem low_ifb_loop (b : List LoopStmt) (tl : List IfBodyStmt) (n : Nat) : IfBodyStmt.lowerL (.loop b :: tl) n =
-    ([Flow.loop (LoopStmt.lowerL b n).1] ++ (IfBodyStmt.lowerL tl (LoopStmt.lowerL b n).2).1, (IfBodyStmt.lowerL tl (LoopStmt.lowerL b n).2).2) := by
+  cases tl <;> simp
+theorem low_ifb_loop (b : List LoopStmt) (tl : List IfBodyStmt) (n : Nat) : IfBodyStmt.lowerL true (.loop b :: tl) n =
+    ([Flow.loop (LoopStmt.lowerL true b n).1] ++ (IfBodyStmt.lowerL true tl (LoopStmt.lowerL true b n).2).1, (IfBodyStmt.lowerL true tl (LoopStmt.lowerL true b n).2).2) := by
   rw [IfBodyStmt.lowerL]
-theorem low_ifb_ret (e : Expr) (tl : List IfBodyStmt) (n : Nat) : IfBodyStmt.lowerL (.ret e :: tl) n =
-    ((lowerRet e n).1 ++ (IfBodyStmt.lowerL tl (lowerRet e n).2).1, (IfBodyStmt.lowerL tl (lowerRet e n).2).2) := by
+theorem low_ifb_ret (e : Expr) (tl : List IfBodyStmt) (n : Nat) : IfBodyStmt.lowerL true (.ret e :: tl) n =
+    ((lowerRet e n).1 ++ (IfBodyStmt.lowerL true tl (lowerRet e n).2).1, (IfBodyStmt.lowerL true tl (lowerRet e n).2).2) := by
   rw [IfBodyStmt.lowerL]
-theorem low_ifb_nil (n : Nat) : IfBodyStmt.lowerL [] n = ([], n) := by rw [IfBodyStmt.lowerL]
-theorem low_ifl_let (b : LetB) (tl : List IfLoopStmt) (n : Nat) : IfLoopStmt.lowerL (.letB b :: tl) n =
-    ((lowerLet b n).1 ++ (IfLoopStmt.lowerL tl (lowerLet b n).2).1, (IfLoopStmt.lowerL tl (lowerLet b n).2).2) := by
+theorem low_ifb_nil (n : Nat) : IfBodyStmt.lowerL true [] n = ([], n) := by rw [IfBodyStmt.lowerL]
+theorem low_ifl_let (b : LetB) (tl : List IfLoopStmt) (n : Nat) : IfLoopStmt.lowerL true (.letB b :: tl) n =
+    ((lowerLet b n).1 ++ (IfLoopStmt.lowerL true tl (lowerLet b n).2).1, (IfLoopStmt.lowerL true tl (lowerLet b n).2).2) := by
   rw [IfLoopStmt.lowerL]
-theorem low_ifl_bind (b : Bind) (tl : List IfLoopStmt) (n : Nat) : IfLoopStmt.lowerL (.bind b :: tl) n =
-    ((lowerBind b n).1 ++ (IfLoopStmt.lowerL tl (lowerBind b n).2).1, (IfLoopStmt.lowerL tl (lowerBind b n).2).2) := by
+theorem low_ifl_bind (b : Bind) (tl : List IfLoopStmt) (n : Nat) : IfLoopStmt.lowerL true (.bind b :: tl) n =
+    ((lowerBind b n).1 ++ (IfLoopStmt.lowerL true tl (lowerBind b n).2).1, (IfLoopStmt.lowerL true tl (lowerBind b n).2).2) := by
   rw [IfLoopStmt.lowerL]
-theorem low_ifl_call (c : CallS) (tl : List IfLoopStmt) (n : Nat) : IfLoopStmt.lowerL (.call c :: tl) n =
-    ((lowerCallS c n).1 ++ (IfLoopStmt.lowerL tl (lowerCallS c n).2).1, (IfLoopStmt.lowerL tl (lowerCallS c n).2).2) := by
+theorem low_ifl_call (c : CallS) (tl : List IfLoopStmt) (n : Nat) : IfLoopStmt.lowerL true (.call c :: tl) n =
+    ((lowerCallS c n).1 ++ (IfLoopStmt.lowerL true tl (lowerCallS c n).2).1, (IfLoopStmt.lowerL true tl (lowerCallS c n).2).2) := by
   rw [IfLoopStmt.lowerL]
-theorem low_ifl_if (i : IfStmt) (tl : List IfLoopStmt) (n : Nat) : IfLoopStmt.lowerL (.ifS i :: tl) n =
-    ((IfStmt.lower i n).1 ++ (IfLoopStmt.lowerL tl (IfStmt.lower i n).2).1, (IfLoopStmt.lowerL tl (IfStmt.lower i n).2).2) := by
+theorem low_ifl_if (i : IfStmt) (tl : List IfLoopStmt) (n : Nat) : IfLoopStmt.lowerL true (.ifS i :: tl) n =
+    (if tl.isEmpty then (IfStmt.lower true i n).1 ++ (IfLoopStmt.lowerL true tl (IfStmt.lower true i n).2).1 else (IfStmt.lower true i n).1,
+      (IfLoopStmt.lowerL true tl (IfStmt.lower true i n).2).2) := by
   rw [IfLoopStmt.lowerL]
-theorem low_ifl_loop (b : List LoopStmt) (tl : List IfLoopStmt) (n : Nat) : IfLoopStmt.lowerL (.loop b :: tl) n =
-    ([Flow.loop (LoopStmt.lowerL b n).1] ++ (IfLoopStmt.lowerL tl (LoopStmt.lowerL b n).2).1, (IfLoopStmt.lowerL tl (LoopStmt.lowerL b n).2).2) := by
+  cases tl <;> simp
+theorem low_ifl_loop (b : List LoopStmt) (tl : List IfLoopStmt) (n : Nat) : IfLoopStmt.lowerL true (.loop b :: tl) n =
+    ([Flow.loop (LoopStmt.lowerL true b n).1] ++ (IfLoopStmt.lowerL true tl (LoopStmt.lowerL true b n).2).1, (IfLoopStmt.lowerL true tl (LoopStmt.lowerL true b n).2).2) := by
   rw [IfLoopStmt.lowerL]
-theorem low_ifl_ret (e : Expr) (tl : List IfLoopStmt) (n : Nat) : IfLoopStmt.lowerL (.ret e :: tl) n =
-    ((lowerRet e n).1 ++ (IfLoopStmt.lowerL tl (lowerRet e n).2).1, (IfLoopStmt.lowerL tl (lowerRet e n).2).2) := by
+theorem low_ifl_ret (e : Expr) (tl : List IfLoopStmt) (n : Nat) : IfLoopStmt.lowerL true (.ret e :: tl) n =
+    ((lowerRet e n).1 ++ (IfLoopStmt.lowerL true tl (lowerRet e n).2).1, (IfLoopStmt.lowerL true tl (lowerRet e n).2).2) := by
   rw [IfLoopStmt.lowerL]
-theorem low_ifl_brk  (tl : List IfLoopStmt) (n : Nat) : IfLoopStmt.lowerL (.brk :: tl) n =
-    ([Flow.brk] ++ (IfLoopStmt.lowerL tl n).1, (IfLoopStmt.lowerL tl n).2) := by
+theorem low_ifl_brk  (tl : List IfLoopStmt) (n : Nat) : IfLoopStmt.lowerL true (.brk :: tl) n =
+    ([Flow.brk] ++ (IfLoopStmt.lowerL true tl n).1, (IfLoopStmt.lowerL true tl n).2) := by
   rw [IfLoopStmt.lowerL]
-theorem low_ifl_cont  (tl : List IfLoopStmt) (n : Nat) : IfLoopStmt.lowerL (.cont :: tl) n =
-    ([Flow.cont] ++ (IfLoopStmt.lowerL tl n).1, (IfLoopStmt.lowerL tl n).2) := by
+theorem low_ifl_cont  (tl : List IfLoopStmt) (n : Nat) : IfLoopStmt.lowerL true (.cont :: tl) n =
+    ([Flow.cont] ++ (IfLoopStmt.lowerL true tl n).1, (IfLoopStmt.lowerL true tl n).2) := by
   rw [IfLoopStmt.lowerL]
-theorem low_ifl_nil (n : Nat) : IfLoopStmt.lowerL [] n = ([], n) := by rw [IfLoopStmt.lowerL]
-theorem low_lp_let (b : LetB) (tl : List LoopStmt) (n : Nat) : LoopStmt.lowerL (.letB b :: tl) n =
-    ((lowerLet b n).1 ++ (LoopStmt.lowerL tl (lowerLet b n).2).1, (LoopStmt.lowerL tl (lowerLet b n).2).2) := by
+theorem low_ifl_nil (n : Nat) : IfLoopStmt.lowerL true [] n = ([], n) := by rw [IfLoopStmt.lowerL]
+theorem low_lp_let (b : LetB) (tl : List LoopStmt) (n : Nat) : LoopStmt.lowerL true (.letB b :: tl) n =
+    ((lowerLet b n).1 ++ (LoopStmt.lowerL true tl (lowerLet b n).2).1, (LoopStmt.lowerL true tl (lowerLet b n).2).2) := by
   rw [LoopStmt.lowerL]
-theorem low_lp_bind (b : Bind) (tl : List LoopStmt) (n : Nat) : LoopStmt.lowerL (.bind b :: tl) n =
-    ((lowerBind b n).1 ++ (LoopStmt.lowerL tl (lowerBind b n).2).1, (LoopStmt.lowerL tl (lowerBind b n).2).2) := by
+theorem low_lp_bind (b : Bind) (tl : List LoopStmt) (n : Nat) : LoopStmt.lowerL true (.bind b :: tl) n =
+    ((lowerBind b n).1 ++ (LoopStmt.lowerL true tl (lowerBind b n).2).1, (LoopStmt.lowerL true tl (lowerBind b n).2).2) := by
   rw [LoopStmt.lowerL]
-theorem low_lp_call (c : CallS) (tl : List LoopStmt) (n : Nat) : LoopStmt.lowerL (.call c :: tl) n =
-    ((lowerCallS c n).1 ++ (LoopStmt.lowerL tl (lowerCallS c n).2).1, (LoopStmt.lowerL tl (lowerCallS c n).2).2) := by
+theorem low_lp_call (c : CallS) (tl : List LoopStmt) (n : Nat) : LoopStmt.lowerL true (.call c :: tl) n =
+    ((lowerCallS c n).1 ++ (LoopStmt.lowerL true tl (lowerCallS c n).2).1, (LoopStmt.lowerL true tl (lowerCallS c n).2).2) := by
   rw [LoopStmt.lowerL]
-theorem low_lp_if (i : IfStmt) (tl : List LoopStmt) (n : Nat) : LoopStmt.lowerL (.ifS i :: tl) n =
-    ((IfStmt.lower i n).1 ++ (LoopStmt.lowerL tl (IfStmt.lower i n).2).1, (LoopStmt.lowerL tl (IfStmt.lower i n).2).2) := by
+theorem low_lp_if (i : IfStmt) (tl : List LoopStmt) (n : Nat) : LoopStmt.lowerL true (.ifS i :: tl) n =
+    ((IfStmt.lower true i n).1 ++ (LoopStmt.lowerL true tl (IfStmt.lower true i n).2).1, (LoopStmt.lowerL true tl (IfStmt.lower true i n).2).2) := by
   rw [LoopStmt.lowerL]
-theorem low_lp_loop (b : List LoopStmt) (tl : List LoopStmt) (n : Nat) : LoopStmt.lowerL (.loop b :: tl) n =
-    ([Flow.loop (LoopStmt.lowerL b n).1] ++ (LoopStmt.lowerL tl (LoopStmt.lowerL b n).2).1, (LoopStmt.lowerL tl (LoopStmt.lowerL b n).2).2) := by
+theorem low_lp_loop (b : List LoopStmt) (tl : List LoopStmt) (n : Nat) : LoopStmt.lowerL true (.loop b :: tl) n =
+    ([Flow.loop (LoopStmt.lowerL true b n).1] ++ (LoopStmt.lowerL true tl (LoopStmt.lowerL true b n).2).1, (LoopStmt.lowerL true tl (LoopStmt.lowerL true b n).2).2) := by
   rw [LoopStmt.lowerL]
-theorem low_lp_ret (e : Expr) (tl : List LoopStmt) (n : Nat) : LoopStmt.lowerL (.ret e :: tl) n =
-    ((lowerRet e n).1 ++ (LoopStmt.lowerL tl (lowerRet e n).2).1, (LoopStmt.lowerL tl (lowerRet e n).2).2) := by
+theorem low_lp_ret (e : Expr) (tl : List LoopStmt) (n : Nat) : LoopStmt.lowerL true (.ret e :: tl) n =
+    ((lowerRet e n).1 ++ (LoopStmt.lowerL true tl (lowerRet e n).2).1, (LoopStmt.lowerL true tl (lowerRet e n).2).2) := by
   rw [LoopStmt.lowerL]
-theorem low_lp_brk  (tl : List LoopStmt) (n : Nat) : LoopStmt.lowerL (.brk :: tl) n =
-    ([Flow.brk] ++ (LoopStmt.lowerL tl n).1, (LoopStmt.lowerL tl n).2) := by
+theorem low_lp_brk  (tl : List LoopStmt) (n : Nat) : LoopStmt.lowerL true (.brk :: tl) n =
+    ([Flow.brk] ++ (LoopStmt.lowerL true tl n).1, (LoopStmt.lowerL true tl n).2) := by
   rw [LoopStmt.lowerL]
-theorem low_lp_cont  (tl : List LoopStmt) (n : Nat) : LoopStmt.lowerL (.cont :: tl) n =
-    ([Flow.cont] ++ (LoopStmt.lowerL tl n).1, (LoopStmt.lowerL tl n).2) := by
+theorem low_lp_cont  (tl : List LoopStmt) (n : Nat) : LoopStmt.lowerL true (.cont :: tl) n =
+    ([Flow.cont] ++ (LoopStmt.lowerL true tl n).1, (LoopStmt.lowerL true tl n).2) := by
   rw [LoopStmt.lowerL]
-theorem low_lp_nil (n : Nat) : LoopStmt.lowerL [] n = ([], n) := by rw [LoopStmt.lowerL]
-theorem low_fb_let (b : LetB) (tl : List BodyStmt) (n : Nat) : BodyStmt.lowerL (.letB b :: tl) n =
-    ((lowerLet b n).1 ++ (BodyStmt.lowerL tl (lowerLet b n).2).1, (BodyStmt.lowerL tl (lowerLet b n).2).2) := by
+theorem low_lp_nil (n : Nat) : LoopStmt.lowerL true [] n = ([], n) := by rw [LoopStmt.lowerL]
+theorem low_fb_let (b : LetB) (tl : List BodyStmt) (n : Nat) : BodyStmt.lowerL true (.letB b :: tl) n =
+    ((lowerLet b n).1 ++ (BodyStmt.lowerL true tl (lowerLet b n).2).1, (BodyStmt.lowerL true tl (lowerLet b n).2).2) := by
   rw [BodyStmt.lowerL]
-theorem low_fb_bind (b : Bind) (tl : List BodyStmt) (n : Nat) : BodyStmt.lowerL (.bind b :: tl) n =
-    ((lowerBind b n).1 ++ (BodyStmt.lowerL tl (lowerBind b n).2).1, (BodyStmt.lowerL tl (lowerBind b n).2).2) := by
+theorem low_fb_bind (b : Bind) (tl : List BodyStmt) (n : Nat) : BodyStmt.lowerL true (.bind b :: tl) n =
+    ((lowerBind b n).1 ++ (BodyStmt.lowerL true tl (lowerBind b n).2).1, (BodyStmt.lowerL true tl (lowerBind b n).2).2) := by
   rw [BodyStmt.lowerL]
-theorem low_fb_call (c : CallS) (tl : List BodyStmt) (n : Nat) : BodyStmt.lowerL (.call c :: tl) n =
-    ((lowerCallS c n).1 ++ (BodyStmt.lowerL tl (lowerCallS c n).2).1, (BodyStmt.lowerL tl (lowerCallS c n).2).2) := by
+theorem low_fb_call (c : CallS) (tl : List BodyStmt) (n : Nat) : BodyStmt.lowerL true (.call c :: tl) n =
+    ((lowerCallS c n).1 ++ (BodyStmt.lowerL true tl (lowerCallS c n).2).1, (BodyStmt.lowerL true tl (lowerCallS c n).2).2) := by
   rw [BodyStmt.lowerL]
-theorem low_fb_if (i : IfStmt) (tl : List BodyStmt) (n : Nat) : BodyStmt.lowerL (.ifS i :: tl) n =
-    ((IfStmt.lower i n).1 ++ (BodyStmt.lowerL tl (IfStmt.lower i n).2).1, (BodyStmt.lowerL tl (IfStmt.lower i n).2).2) := by
+theorem low_fb_if (i : IfStmt) (tl : List BodyStmt) (n : Nat) : BodyStmt.lowerL true (.ifS i :: tl) n =
+    ((IfStmt.lower true i n).1 ++ (BodyStmt.lowerL true tl (IfStmt.lower true i n).2).1, (BodyStmt.lowerL true tl (IfStmt.lower true i n).2).2) := by
   rw [BodyStmt.lowerL]
-theorem low_fb_loop (b : List LoopStmt) (tl : List BodyStmt) (n : Nat) : BodyStmt.lowerL (.loop b :: tl) n =
-    ([Flow.loop (LoopStmt.lowerL b n).1] ++ (BodyStmt.lowerL tl (LoopStmt.lowerL b n).2).1, (BodyStmt.lowerL tl (LoopStmt.lowerL b n).2).2) := by
+theorem low_fb_loop (b : List LoopStmt) (tl : List BodyStmt) (n : Nat) : BodyStmt.lowerL true (.loop b :: tl) n =
+    ([Flow.loop (LoopStmt.lowerL true b n).1] ++ (BodyStmt.lowerL true tl (LoopStmt.lowerL true b n).2).1, (BodyStmt.lowerL true tl (LoopStmt.lowerL true b n).2).2) := by
   rw [BodyStmt.lowerL]
-theorem low_fb_ret (e : Expr) (tl : List BodyStmt) (n : Nat) : BodyStmt.lowerL (.ret e :: tl) n =
-    ((lowerRet e n).1 ++ (BodyStmt.lowerL tl (lowerRet e n).2).1, (BodyStmt.lowerL tl (lowerRet e n).2).2) := by
+theorem low_fb_ret (e : Expr) (tl : List BodyStmt) (n : Nat) : BodyStmt.lowerL true (.ret e :: tl) n =
+    ((lowerRet e n).1 ++ (BodyStmt.lowerL true tl (lowerRet e n).2).1, (BodyStmt.lowerL true tl (lowerRet e n).2).2) := by
   rw [BodyStmt.lowerL]
-theorem low_fb_expr (e : Expr) (tl : List BodyStmt) (n : Nat) : BodyStmt.lowerL (.expr e :: tl) n =
-    ((lowerRet e n).1 ++ (BodyStmt.lowerL tl (lowerRet e n).2).1, (BodyStmt.lowerL tl (lowerRet e n).2).2) := by
+theorem low_fb_expr (e : Expr) (tl : List BodyStmt) (n : Nat) : BodyStmt.lowerL true (.expr e :: tl) n =
+    ((lowerRet e n).1 ++ (BodyStmt.lowerL true tl (lowerRet e n).2).1, (BodyStmt.lowerL true tl (lowerRet e n).2).2) := by
   rw [BodyStmt.lowerL]
-theorem low_fb_nil (n : Nat) : BodyStmt.lowerL [] n = ([], n) := by rw [BodyStmt.lowerL]
+theorem low_fb_nil (n : Nat) : BodyStmt.lowerL true [] n = ([], n) := by rw [BodyStmt.lowerL]
 
 theorem low_if (cond : IfCond) (body : IfBodies) (els : Option IfBodies) (elif : Option IfStmt) (n : Nat) :
-    IfStmt.lower (.mk cond body els elif) n =
+    IfStmt.lower true (.mk cond body els elif) n =
     (match els, elif with
-    | some eb, _ => (evs n cond.calls ++ [.ite (IfBodies.lower body (n + cond.calls)).1 (IfBodies.lower eb (IfBodies.lower body (n + cond.calls)).2).1],
-        (IfBodies.lower eb (IfBodies.lower body (n + cond.calls)).2).2)
-    | none, some ei => (evs n cond.calls ++ [.ite (IfBodies.lower body (n + cond.calls)).1 (IfStmt.lower ei (IfBodies.lower body (n + cond.calls)).2).1],
-        (IfStmt.lower ei (IfBodies.lower body (n + cond.calls)).2).2)
-    | none, none => (evs n cond.calls ++ [.ite (IfBodies.lower body (n + cond.calls)).1 []], (IfBodies.lower body (n + cond.calls)).2)) := by
+    | some eb, _ => (evs n cond.calls ++ [.ite (IfBodies.lower true body (n + cond.calls)).1 (IfBodies.lower true eb (IfBodies.lower true body (n + cond.calls)).2).1],
+        (IfBodies.lower true eb (IfBodies.lower true body (n + cond.calls)).2).2)
+    | none, some ei => (evs n cond.calls ++ [.ite (IfBodies.lower true body (n + cond.calls)).1 (IfStmt.lower true ei (IfBodies.lower true body (n + cond.calls)).2).1],
+        (IfStmt.lower true ei (IfBodies.lower true body (n + cond.calls)).2).2)
+    | none, none => (evs n cond.calls ++ [.ite (IfBodies.lower true body (n + cond.calls)).1 []], (IfBodies.lower true body (n + cond.calls)).2)) := by
   rw [IfStmt.lower]
   cases els <;> cases elif <;> rfl
 
@@ -919,18 +943,17 @@ theorem kof_some (lb le : Name) (b : Bool) : KOf (some (lb, le)) b = some (lb, l
 
 mutual
 theorem lay_ifCondition (hg : GlobRel g rg) (hn : GNames g) : ∀ (i : IfStmt) (le : Option Name) (ll : Option (Name × Name)) (b : Bool),
-    IfStmt.anaOK ll.isSome i = true → (i.hasBrk = true → b = true) → i.f2 = false → i.f3 = false →
+    IfStmt.anaOK ll.isSome i = true → (i.hasBrk = true → b = true) → i.f3 = false →
     ∀ s ss, DRel g R s ss → (ifCondition g i le ll s).errors = s.errors →
-      (le = none → CPSv (KOf ll b) s (ifCondition g i le ll s) (IfStmt.lower i (effCount s.root.context))) ∧
-      (∀ l0, le = some l0 → PassV (KOf ll b) s (ifCondition g i le ll s) (IfStmt.lower i (effCount s.root.context)) l0)
+      (le = none → CPSv (KOf ll b) s (ifCondition g i le ll s) (IfStmt.lower true i (effCount s.root.context))) ∧
+      (∀ l0, le = some l0 → PassV (KOf ll b) s (ifCondition g i le ll s) (IfStmt.lower true i (effCount s.root.context)) l0)
   | .mk cond body els elif, labelEnd, labelLoop, b => by
-    intro hok hbrk hf2 hf3 s ss hr he
+    intro hok hbrk hf3 s ss hr he
     unfold IfStmt.anaOK at hok
     simp only [Bool.and_eq_true] at hok
     obtain ⟨hokb, hokr⟩ := hok
-    unfold IfStmt.f2 at hf2
     unfold IfStmt.f3 at hf3
-    simp only [Bool.or_eq_false_iff] at hf2 hf3
+    simp only [Bool.or_eq_false_iff] at hf3
     have hbb : body.hasBrk = true → b = true := fun h => hbrk (by unfold IfStmt.hasBrk; simp [h])
     unfold ifCondition at he ⊢
     dsimp only at he ⊢
@@ -943,7 +966,7 @@ theorem lay_ifCondition (hg : GlobRel g rg) (hn : GNames g) : ∀ (i : IfStmt) (
     dsimp only at he x1 h1 p1 ⊢
     have x2 := (steps_ifBodies g body lEnd labelLoop s1).errors_ext
     have h2 := den_ifBodies (R := R) hg hn body lEnd labelLoop hokb s1 (specIfCond false cond ss.push)
-    have l2 := lay_ifBodies hg hn body lEnd labelLoop b hokb hbb hf2.1.1 hf3.1.1 s1 (specIfCond false cond ss.push)
+    have l2 := lay_ifBodies hg hn body lEnd labelLoop b hokb hbb hf3.1.1 s1 (specIfCond false cond ss.push)
     generalize ifBodies g body lEnd labelLoop s1 = q at he x2 h2 l2 ⊢
     obtain ⟨s2, r⟩ := q
     dsimp only at he x2 h2 l2 ⊢
@@ -992,7 +1015,7 @@ theorem lay_ifCondition (hg : GlobRel g rg) (hn : GNames g) : ∀ (i : IfStmt) (
     -- the then part with its trailing jump
     generalize htc : segB ++ (if r then [] else [Instr.jumpTo lEnd]) = tc at lB
     have htcn : effCount tc = effCount segB := by rw [← htc, effCount_append, eff_ite_jump]; omega
-    have hnb : (IfBodies.lower body (effCount s.root.context + effCount seg0)).2 =
+    have hnb : (IfBodies.lower true body (effCount s.root.context + effCount seg0)).2 =
         effCount s.root.context + effCount seg0 + effCount tc := by rw [nB, htcn]
     rw [hnb]
     cases els with
@@ -1003,7 +1026,7 @@ theorem lay_ifCondition (hg : GlobRel g rg) (hn : GNames g) : ∀ (i : IfStmt) (
       have hbe : eb.hasBrk = true → b = true := fun h => hbrk (by unfold IfStmt.hasBrk; simp [h])
       have r3e : DRel g R s3.enter (specBodies false rg body (specIfCond false cond ss.push)).pop.push :=
         drel_enter r3 (quiet_enter s3) (vals_enter s3) (dts_enter s3)
-      have l4 := lay_ifBodies hg hn eb lEnd labelLoop b hokr hbe hf2.1.2 hf3.1.2 s3.enter _ r3e e4
+      have l4 := lay_ifBodies hg hn eb lEnd labelLoop b hokr hbe hf3.1.2 s3.enter _ r3e e4
       have c5 := ctx_ifAfterElse k (ifBodies g eb lEnd labelLoop s3.enter).2 lEnd (ifBodies g eb lEnd labelLoop s3.enter).1
       generalize ifBodies g eb lEnd labelLoop s3.enter = q4 at l4 c5 ⊢
       obtain ⟨s4, r4⟩ := q4
@@ -1047,7 +1070,7 @@ theorem lay_ifCondition (hg : GlobRel g rg) (hn : GNames g) : ∀ (i : IfStmt) (
         dsimp only at e4 hbr c3 ⊢
         simp only [Option.isSome_none, Option.isSome_some, Bool.false_or, if_true] at hbr c3
         have hbe : ei.hasBrk = true → b = true := fun h => hbrk (by unfold IfStmt.hasBrk; simp [h])
-        obtain ⟨_, hp5⟩ := lay_ifCondition hg hn ei (some lEnd) labelLoop b hokr hbe hf2.2 hf3.2 s3 _ r3 e4
+        obtain ⟨_, hp5⟩ := lay_ifCondition hg hn ei (some lEnd) labelLoop b hokr hbe hf3.2 s3 _ r3 e4
         obtain ⟨ec, cE, nE, lE⟩ := hp5 lEnd rfl
         have hn3 : effCount s3.root.context = effCount s.root.context + effCount seg0 + effCount tc := by
           rw [c3, cB, c1]; simp only [effCount_append, eff_br_label _ hne, eff_ite_jump, eff_label, htcn]; omega
@@ -1104,31 +1127,31 @@ theorem lay_ifCondition (hg : GlobRel g rg) (hn : GNames g) : ∀ (i : IfStmt) (
           · dsimp only
             simp only [effCount_append, eff_br_label _ hne, eff_label]; omega
 theorem lay_ifBodies (hg : GlobRel g rg) (hn : GNames g) : ∀ (bd : IfBodies) (lEnd : Name) (ll : Option (Name × Name)) (b : Bool),
-    IfBodies.anaOK ll.isSome bd = true → (bd.hasBrk = true → b = true) → bd.f2 = false → bd.f3 = false →
+    IfBodies.anaOK ll.isSome bd = true → (bd.hasBrk = true → b = true) → bd.f3 = false →
     ∀ s ss, DRel g R s ss → (ifBodies g bd lEnd ll s).1.errors = s.errors →
-      BodyJ (KOf ll b) s (ifBodies g bd lEnd ll s) (IfBodies.lower bd (effCount s.root.context)) lEnd
+      BodyJ (KOf ll b) s (ifBodies g bd lEnd ll s) (IfBodies.lower true bd (effCount s.root.context)) lEnd
   | .ifb l, lEnd, ll, b => by
-    intro hok hbrk hf2 hf3 s ss hr he
-    unfold IfBodies.anaOK at hok; unfold IfBodies.hasBrk at hbrk; unfold IfBodies.f2 at hf2; unfold IfBodies.f3 at hf3
+    intro hok hbrk hf3 s ss hr he
+    unfold IfBodies.anaOK at hok; unfold IfBodies.hasBrk at hbrk; unfold IfBodies.f3 at hf3
     unfold ifBodies at he ⊢
     unfold IfBodies.lower
-    exact lay_ifBody hg hn l lEnd ll b false hok hbrk hf2 hf3 (fun _ => rfl) s ss hr he
+    exact lay_ifBody hg hn l lEnd ll b false hok hbrk hf3 (fun _ => rfl) s ss hr he
   | .loopb l, lEnd, some (lb, le), b => by
-    intro hok hbrk hf2 hf3 s ss hr he
+    intro hok hbrk hf3 s ss hr he
     unfold IfBodies.anaOK at hok; simp at hok
-    unfold IfBodies.hasBrk at hbrk; unfold IfBodies.f2 at hf2; unfold IfBodies.f3 at hf3
+    unfold IfBodies.hasBrk at hbrk; unfold IfBodies.f3 at hf3
     unfold ifBodies at he ⊢
     unfold IfBodies.lower
-    exact lay_ifLoopBody hg hn l lEnd lb le b false false false hok hbrk hf2 hf3 (fun _ => rfl) s ss hr he
+    exact lay_ifLoopBody hg hn l lEnd lb le b false false false hok hbrk hf3 (fun _ => rfl) s ss hr he
   | .loopb _, _, none, _ => by
     intro hok; unfold IfBodies.anaOK at hok; simp at hok
 theorem lay_ifBody (hg : GlobRel g rg) (hn : GNames g) : ∀ (l : List IfBodyStmt) (lEnd : Name) (ll : Option (Name × Name)) (b rc : Bool),
-    IfBodyStmt.anaOKL ll.isSome l = true → (IfBodyStmt.hasBrkL l = true → b = true) → IfBodyStmt.f2L l = false →
+    IfBodyStmt.anaOKL ll.isSome l = true → (IfBodyStmt.hasBrkL l = true → b = true) →
     IfBodyStmt.f3L l = false → (l = [] → rc = false) →
     ∀ s ss, DRel g R s ss → (ifBody g l lEnd ll rc s).1.errors = s.errors →
-      BodyJ (KOf ll b) s (ifBody g l lEnd ll rc s) (IfBodyStmt.lowerL l (effCount s.root.context)) lEnd
+      BodyJ (KOf ll b) s (ifBody g l lEnd ll rc s) (IfBodyStmt.lowerL true l (effCount s.root.context)) lEnd
   | [], lEnd, ll, b, rc => by
-    intro _ _ _ _ hrc s ss hr _
+    intro _ _ _ hrc s ss hr _
     have : rc = false := hrc rfl
     subst this
     unfold ifBody
@@ -1136,68 +1159,87 @@ theorem lay_ifBody (hg : GlobRel g rg) (hn : GNames g) : ∀ (l : List IfBodyStm
     refine ⟨[], by simp, by simp [effCount], ?_⟩
     simpa using Lay.jmp (KOf ll b) (effCount s.root.context) lEnd []
   | .letB bd :: tl, lEnd, ll, b, rc => by
-    intro hok hbrk hf2 hf3 _ s ss hr he
-    unfold IfBodyStmt.anaOKL at hok; unfold IfBodyStmt.hasBrkL at hbrk; unfold IfBodyStmt.f2L at hf2; unfold IfBodyStmt.f3L at hf3
+    intro hok hbrk hf3 _ s ss hr he
+    unfold IfBodyStmt.anaOKL at hok; unfold IfBodyStmt.hasBrkL at hbrk; unfold IfBodyStmt.f3L at hf3
     unfold ifBody at he ⊢
     dsimp only at he ⊢
     obtain ⟨h1, _, _, _, _⟩ := cons_facts rc false false (esteps_letBinding g bd _).errors_ext (steps_ifBody g tl lEnd ll rc _).errors_ext he
     subst h1
     rw [forbidden_fff] at he ⊢
     rw [low_ifb_let]
-    exact bodyj_cons (IfBodyStmt.lowerL tl) (esteps_letBinding g bd s).errors_ext (steps_ifBody g tl lEnd ll false _).errors_ext he
+    exact bodyj_cons (IfBodyStmt.lowerL true tl) (esteps_letBinding g bd s).errors_ext (steps_ifBody g tl lEnd ll false _).errors_ext he
       (fun e => ⟨cpsv_of (cps_let hg hn _ bd s ss hr e), den_let hg hn bd s ss hr e⟩)
-      (fun d e => lay_ifBody hg hn tl lEnd ll b false hok hbrk hf2 hf3 (fun _ => rfl) _ _ d e)
+      (fun d e => lay_ifBody hg hn tl lEnd ll b false hok hbrk hf3 (fun _ => rfl) _ _ d e)
   | .bind bd :: tl, lEnd, ll, b, rc => by
-    intro hok hbrk hf2 hf3 _ s ss hr he
-    unfold IfBodyStmt.anaOKL at hok; unfold IfBodyStmt.hasBrkL at hbrk; unfold IfBodyStmt.f2L at hf2; unfold IfBodyStmt.f3L at hf3
+    intro hok hbrk hf3 _ s ss hr he
+    unfold IfBodyStmt.anaOKL at hok; unfold IfBodyStmt.hasBrkL at hbrk; unfold IfBodyStmt.f3L at hf3
     unfold ifBody at he ⊢
     dsimp only at he ⊢
     obtain ⟨h1, _, _, _, _⟩ := cons_facts rc false false (esteps_binding g bd _).errors_ext (steps_ifBody g tl lEnd ll rc _).errors_ext he
     subst h1
     rw [forbidden_fff] at he ⊢
     rw [low_ifb_bind]
-    exact bodyj_cons (IfBodyStmt.lowerL tl) (esteps_binding g bd s).errors_ext (steps_ifBody g tl lEnd ll false _).errors_ext he
+    exact bodyj_cons (IfBodyStmt.lowerL true tl) (esteps_binding g bd s).errors_ext (steps_ifBody g tl lEnd ll false _).errors_ext he
       (fun e => ⟨cpsv_of (cps_bind hg hn _ bd s ss hr e), den_bind hg hn bd s ss hr e⟩)
-      (fun d e => lay_ifBody hg hn tl lEnd ll b false hok hbrk hf2 hf3 (fun _ => rfl) _ _ d e)
+      (fun d e => lay_ifBody hg hn tl lEnd ll b false hok hbrk hf3 (fun _ => rfl) _ _ d e)
   | .call c :: tl, lEnd, ll, b, rc => by
-    intro hok hbrk hf2 hf3 _ s ss hr he
-    unfold IfBodyStmt.anaOKL at hok; unfold IfBodyStmt.hasBrkL at hbrk; unfold IfBodyStmt.f2L at hf2; unfold IfBodyStmt.f3L at hf3
+    intro hok hbrk hf3 _ s ss hr he
+    unfold IfBodyStmt.anaOKL at hok; unfold IfBodyStmt.hasBrkL at hbrk; unfold IfBodyStmt.f3L at hf3
     unfold ifBody at he ⊢
     dsimp only at he ⊢
     obtain ⟨h1, _, _, _, _⟩ := cons_facts rc false false (esteps_callStmt g c _).errors_ext (steps_ifBody g tl lEnd ll rc _).errors_ext he
     subst h1
     rw [forbidden_fff] at he ⊢
     rw [low_ifb_call]
-    exact bodyj_cons (IfBodyStmt.lowerL tl) (esteps_callStmt g c s).errors_ext (steps_ifBody g tl lEnd ll false _).errors_ext he
+    exact bodyj_cons (IfBodyStmt.lowerL true tl) (esteps_callStmt g c s).errors_ext (steps_ifBody g tl lEnd ll false _).errors_ext he
       (fun e => ⟨cpsv_of (cps_callS hg hn _ c s ss hr e), den_callS hg hn c s ss hr e⟩)
-      (fun d e => lay_ifBody hg hn tl lEnd ll b false hok hbrk hf2 hf3 (fun _ => rfl) _ _ d e)
+      (fun d e => lay_ifBody hg hn tl lEnd ll b false hok hbrk hf3 (fun _ => rfl) _ _ d e)
   | .loop lbody :: tl, lEnd, ll, b, rc => by
-    intro hok hbrk hf2 hf3 _ s ss hr he
-    unfold IfBodyStmt.anaOKL at hok; unfold IfBodyStmt.hasBrkL at hbrk; unfold IfBodyStmt.f2L at hf2; unfold IfBodyStmt.f3L at hf3
+    intro hok hbrk hf3 _ s ss hr he
+    unfold IfBodyStmt.anaOKL at hok; unfold IfBodyStmt.hasBrkL at hbrk; unfold IfBodyStmt.f3L at hf3
     simp only [Bool.and_eq_true] at hok
-    simp only [Bool.or_eq_false_iff] at hf2 hf3
+    simp only [Bool.or_eq_false_iff] at hf3
     unfold ifBody at he ⊢
     dsimp only at he ⊢
     obtain ⟨h1, _, _, _, _⟩ := cons_facts rc false false (steps_loopWrap _ (steps_loopBody g lbody) _).errors_ext (steps_ifBody g tl lEnd ll rc _).errors_ext he
     subst h1
     rw [forbidden_fff] at he ⊢
     rw [low_ifb_loop]
-    exact bodyj_cons (IfBodyStmt.lowerL tl) (steps_loopWrap _ (steps_loopBody g lbody) s).errors_ext (steps_ifBody g tl lEnd ll false _).errors_ext he
-      (fun e => ⟨lay_loopWrap (loopBody g lbody) (specLoopBody false rg lbody) (LoopStmt.lowerL lbody) (LoopStmt.hasRetL lbody)
+    exact bodyj_cons (IfBodyStmt.lowerL true tl) (steps_loopWrap _ (steps_loopBody g lbody) s).errors_ext (steps_ifBody g tl lEnd ll false _).errors_ext he
+      (fun e => ⟨lay_loopWrap (loopBody g lbody) (specLoopBody false rg lbody) (LoopStmt.lowerL true lbody) (LoopStmt.hasRetL lbody)
           (LoopStmt.nestedBrkL lbody) (KOf ll b) (steps_loopBody g lbody)
           (fun lb le s ss => den_loopBody hg hn lbody lb le false false false hok.1 s ss)
-          (fun lb le b' s ss d e hb' => lay_loopBody hg hn lbody lb le b' false false false hok.1 hb' hf2.1 hf3.1.2 (fun _ => rfl) s ss d e)
+          (fun lb le b' s ss d e hb' => lay_loopBody hg hn lbody lb le b' false false false hok.1 hb' hf3.1.2 (fun _ => rfl) s ss d e)
           (fun lb le s h => by rcases ret_loopBody g lbody lb le false false false s h with h | h; cases h; exact h)
           hf3.1.1 s ss hr e,
         (den_loopWrap _ (specLoopBody false rg lbody) (steps_loopBody g lbody)
           (fun lb le s ss => den_loopBody hg hn lbody lb le false false false hok.1 s ss) s ss hr e).1⟩)
-      (fun d e => lay_ifBody hg hn tl lEnd ll b false hok.2 hbrk hf2.2 hf3.2 (fun _ => rfl) _ _ d e)
+      (fun d e => lay_ifBody hg hn tl lEnd ll b false hok.2 hbrk hf3.2 (fun _ => rfl) _ _ d e)
   | .ifS i :: tl, lEnd, ll, b, rc => by
-    intro hok hbrk hf2 hf3 _ s ss hr he
+    intro hok hbrk hf3 _ s ss hr he
     cases tl with
-    | cons x tl' => unfold IfBodyStmt.f2L at hf2; cases hf2
+    | cons x tl' =>
+      unfold IfBodyStmt.anaOKL at hok; unfold IfBodyStmt.hasBrkL at hbrk; unfold IfBodyStmt.f3L at hf3
+      simp only [Bool.and_eq_true] at hok
+      simp only [Bool.or_eq_false_iff] at hf3
+      unfold ifBody at he ⊢
+      dsimp only at he ⊢
+      have x1 := (steps_ifCondition g i (some lEnd) ll (forbidden rc false false s)).errors_ext
+      have x2 := (steps_ifBody g (x :: tl') lEnd ll rc (ifCondition g i (some lEnd) ll (forbidden rc false false s))).errors_ext
+      obtain ⟨h1, _, _, _, _⟩ := cons_facts rc false false x1 x2 he
+      subst h1
+      rw [forbidden_fff] at he x1 x2 ⊢
+      obtain ⟨e1, e2⟩ := chain2 x1 x2 he
+      obtain ⟨_, hpass⟩ := lay_ifCondition hg hn i (some lEnd) ll b hok.1 (fun h => hbrk (by simp [h])) hf3.1 s ss hr e1
+      have hp := hpass lEnd rfl
+      have d1 := (den_ifCondition (R := R) hg hn i (some lEnd) ll hok.1 s ss hr e1).1
+      have ih := lay_ifBody hg hn (x :: tl') lEnd ll b false hok.2 (fun h => hbrk (by simp [h])) hf3.2 (fun h => by cases h) _ _ d1 e2
+      rw [low_ifb_if]
+      simp only [List.isEmpty_cons, Bool.false_eq_true, if_false]
+      rw [hp.eff] at ih
+      exact bodyj_dead hp ih
     | nil =>
-      unfold IfBodyStmt.anaOKL at hok; unfold IfBodyStmt.hasBrkL at hbrk; unfold IfBodyStmt.f2L at hf2; unfold IfBodyStmt.f3L at hf3
+      unfold IfBodyStmt.anaOKL at hok; unfold IfBodyStmt.hasBrkL at hbrk; unfold IfBodyStmt.f3L at hf3
       simp only [Bool.and_eq_true] at hok
       simp only [Bool.or_eq_false_iff] at hf3
       unfold ifBody at he ⊢
@@ -1209,7 +1251,7 @@ theorem lay_ifBody (hg : GlobRel g rg) (hn : GNames g) : ∀ (l : List IfBodyStm
       rw [forbidden_fff] at he ⊢
       try rw [hnil false false false] at he ⊢
       dsimp only at he ⊢
-      obtain ⟨_, hpass⟩ := lay_ifCondition hg hn i (some lEnd) ll b hok.1 (fun h => hbrk (by simp [h])) hf2 hf3.1 s ss hr he
+      obtain ⟨_, hpass⟩ := lay_ifCondition hg hn i (some lEnd) ll b hok.1 (fun h => hbrk (by simp [h])) hf3.1 s ss hr he
       obtain ⟨seg, c1, n1, l1⟩ := hpass lEnd rfl
       rw [low_ifb_if, low_ifb_nil]
       refine ⟨seg, c1, by simpa using n1, ?_⟩
@@ -1217,8 +1259,8 @@ theorem lay_ifBody (hg : GlobRel g rg) (hn : GNames g) : ∀ (l : List IfBodyStm
       have := Lay.dead [Instr.jumpTo lEnd] l1'
       simpa using this
   | .ret e :: tl, lEnd, ll, b, rc => by
-    intro hok hbrk hf2 hf3 _ s ss hr he
-    unfold IfBodyStmt.anaOKL at hok; unfold IfBodyStmt.hasBrkL at hbrk; unfold IfBodyStmt.f2L at hf2; unfold IfBodyStmt.f3L at hf3
+    intro hok hbrk hf3 _ s ss hr he
+    unfold IfBodyStmt.anaOKL at hok; unfold IfBodyStmt.hasBrkL at hbrk; unfold IfBodyStmt.f3L at hf3
     unfold ifBody at he ⊢
     dsimp only at he ⊢
     have x1 := (steps_nestedReturn g e (forbidden rc false false s)).errors_ext
@@ -1241,15 +1283,15 @@ theorem lay_ifBody (hg : GlobRel g rg) (hn : GNames g) : ∀ (l : List IfBodyStm
       have := RetV.body (lEnd := lEnd) (res := ((nestedReturn g e s).1, true)) jr
       simpa using this
     | cons x tl' =>
-      have ih := lay_ifBody hg hn (x :: tl') lEnd ll b true hok hbrk hf2 hf3 (fun h => by cases h) _ _ jd e2
+      have ih := lay_ifBody hg hn (x :: tl') lEnd ll b true hok hbrk hf3 (fun h => by cases h) _ _ jd e2
       exact jr.cps.thenBody (by rw [jr.cps.eff] at ih; exact ih)
 theorem lay_ifLoopBody (hg : GlobRel g rg) (hn : GNames g) : ∀ (l : List IfLoopStmt) (lEnd lb le : Name) (b rc bc cc : Bool),
-    IfLoopStmt.anaOKL l = true → (IfLoopStmt.hasBrkL l = true → b = true) → IfLoopStmt.f2L l = false →
+    IfLoopStmt.anaOKL l = true → (IfLoopStmt.hasBrkL l = true → b = true) →
     IfLoopStmt.f3L l = false → (l = [] → rc = false) →
     ∀ s ss, DRel g R s ss → (ifLoopBody g l lEnd lb le rc bc cc s).1.errors = s.errors →
-      BodyJ (some (lb, le, b)) s (ifLoopBody g l lEnd lb le rc bc cc s) (IfLoopStmt.lowerL l (effCount s.root.context)) lEnd
+      BodyJ (some (lb, le, b)) s (ifLoopBody g l lEnd lb le rc bc cc s) (IfLoopStmt.lowerL true l (effCount s.root.context)) lEnd
   | [], lEnd, lb, le, b, rc, bc, cc => by
-    intro _ _ _ _ hrc s ss hr _
+    intro _ _ _ hrc s ss hr _
     have : rc = false := hrc rfl
     subst this
     unfold ifLoopBody
@@ -1257,68 +1299,87 @@ theorem lay_ifLoopBody (hg : GlobRel g rg) (hn : GNames g) : ∀ (l : List IfLoo
     refine ⟨[], by simp, by simp [effCount], ?_⟩
     simpa using Lay.jmp (some (lb, le, b)) (effCount s.root.context) lEnd []
   | .letB bd :: tl, lEnd, lb, le, b, rc, bc, cc => by
-    intro hok hbrk hf2 hf3 _ s ss hr he
-    unfold IfLoopStmt.anaOKL at hok; unfold IfLoopStmt.hasBrkL at hbrk; unfold IfLoopStmt.f2L at hf2; unfold IfLoopStmt.f3L at hf3
+    intro hok hbrk hf3 _ s ss hr he
+    unfold IfLoopStmt.anaOKL at hok; unfold IfLoopStmt.hasBrkL at hbrk; unfold IfLoopStmt.f3L at hf3
     unfold ifLoopBody at he ⊢
     dsimp only at he ⊢
     obtain ⟨h1, h2, h3, _, _⟩ := cons_facts rc bc cc (esteps_letBinding g bd _).errors_ext (steps_ifLoopBody g tl lEnd lb le rc bc cc _).errors_ext he
     subst h1; subst h2; subst h3
     rw [forbidden_fff] at he ⊢
     rw [low_ifl_let]
-    exact bodyj_cons (IfLoopStmt.lowerL tl) (esteps_letBinding g bd s).errors_ext (steps_ifLoopBody g tl lEnd lb le false false false _).errors_ext he
+    exact bodyj_cons (IfLoopStmt.lowerL true tl) (esteps_letBinding g bd s).errors_ext (steps_ifLoopBody g tl lEnd lb le false false false _).errors_ext he
       (fun e => ⟨cpsv_of (cps_let hg hn _ bd s ss hr e), den_let hg hn bd s ss hr e⟩)
-      (fun d e => lay_ifLoopBody hg hn tl lEnd lb le b false false false hok hbrk hf2 hf3 (fun _ => rfl) _ _ d e)
+      (fun d e => lay_ifLoopBody hg hn tl lEnd lb le b false false false hok hbrk hf3 (fun _ => rfl) _ _ d e)
   | .bind bd :: tl, lEnd, lb, le, b, rc, bc, cc => by
-    intro hok hbrk hf2 hf3 _ s ss hr he
-    unfold IfLoopStmt.anaOKL at hok; unfold IfLoopStmt.hasBrkL at hbrk; unfold IfLoopStmt.f2L at hf2; unfold IfLoopStmt.f3L at hf3
+    intro hok hbrk hf3 _ s ss hr he
+    unfold IfLoopStmt.anaOKL at hok; unfold IfLoopStmt.hasBrkL at hbrk; unfold IfLoopStmt.f3L at hf3
     unfold ifLoopBody at he ⊢
     dsimp only at he ⊢
     obtain ⟨h1, h2, h3, _, _⟩ := cons_facts rc bc cc (esteps_binding g bd _).errors_ext (steps_ifLoopBody g tl lEnd lb le rc bc cc _).errors_ext he
     subst h1; subst h2; subst h3
     rw [forbidden_fff] at he ⊢
     rw [low_ifl_bind]
-    exact bodyj_cons (IfLoopStmt.lowerL tl) (esteps_binding g bd s).errors_ext (steps_ifLoopBody g tl lEnd lb le false false false _).errors_ext he
+    exact bodyj_cons (IfLoopStmt.lowerL true tl) (esteps_binding g bd s).errors_ext (steps_ifLoopBody g tl lEnd lb le false false false _).errors_ext he
       (fun e => ⟨cpsv_of (cps_bind hg hn _ bd s ss hr e), den_bind hg hn bd s ss hr e⟩)
-      (fun d e => lay_ifLoopBody hg hn tl lEnd lb le b false false false hok hbrk hf2 hf3 (fun _ => rfl) _ _ d e)
+      (fun d e => lay_ifLoopBody hg hn tl lEnd lb le b false false false hok hbrk hf3 (fun _ => rfl) _ _ d e)
   | .call c :: tl, lEnd, lb, le, b, rc, bc, cc => by
-    intro hok hbrk hf2 hf3 _ s ss hr he
-    unfold IfLoopStmt.anaOKL at hok; unfold IfLoopStmt.hasBrkL at hbrk; unfold IfLoopStmt.f2L at hf2; unfold IfLoopStmt.f3L at hf3
+    intro hok hbrk hf3 _ s ss hr he
+    unfold IfLoopStmt.anaOKL at hok; unfold IfLoopStmt.hasBrkL at hbrk; unfold IfLoopStmt.f3L at hf3
     unfold ifLoopBody at he ⊢
     dsimp only at he ⊢
     obtain ⟨h1, h2, h3, _, _⟩ := cons_facts rc bc cc (esteps_callStmt g c _).errors_ext (steps_ifLoopBody g tl lEnd lb le rc bc cc _).errors_ext he
     subst h1; subst h2; subst h3
     rw [forbidden_fff] at he ⊢
     rw [low_ifl_call]
-    exact bodyj_cons (IfLoopStmt.lowerL tl) (esteps_callStmt g c s).errors_ext (steps_ifLoopBody g tl lEnd lb le false false false _).errors_ext he
+    exact bodyj_cons (IfLoopStmt.lowerL true tl) (esteps_callStmt g c s).errors_ext (steps_ifLoopBody g tl lEnd lb le false false false _).errors_ext he
       (fun e => ⟨cpsv_of (cps_callS hg hn _ c s ss hr e), den_callS hg hn c s ss hr e⟩)
-      (fun d e => lay_ifLoopBody hg hn tl lEnd lb le b false false false hok hbrk hf2 hf3 (fun _ => rfl) _ _ d e)
+      (fun d e => lay_ifLoopBody hg hn tl lEnd lb le b false false false hok hbrk hf3 (fun _ => rfl) _ _ d e)
   | .loop lbody :: tl, lEnd, lb, le, b, rc, bc, cc => by
-    intro hok hbrk hf2 hf3 _ s ss hr he
-    unfold IfLoopStmt.anaOKL at hok; unfold IfLoopStmt.hasBrkL at hbrk; unfold IfLoopStmt.f2L at hf2; unfold IfLoopStmt.f3L at hf3
+    intro hok hbrk hf3 _ s ss hr he
+    unfold IfLoopStmt.anaOKL at hok; unfold IfLoopStmt.hasBrkL at hbrk; unfold IfLoopStmt.f3L at hf3
     simp only [Bool.and_eq_true] at hok
-    simp only [Bool.or_eq_false_iff] at hf2 hf3
+    simp only [Bool.or_eq_false_iff] at hf3
     unfold ifLoopBody at he ⊢
     dsimp only at he ⊢
     obtain ⟨h1, h2, h3, _, _⟩ := cons_facts rc bc cc (steps_loopWrap _ (steps_loopBody g lbody) _).errors_ext (steps_ifLoopBody g tl lEnd lb le rc bc cc _).errors_ext he
     subst h1; subst h2; subst h3
     rw [forbidden_fff] at he ⊢
     rw [low_ifl_loop]
-    exact bodyj_cons (IfLoopStmt.lowerL tl) (steps_loopWrap _ (steps_loopBody g lbody) s).errors_ext (steps_ifLoopBody g tl lEnd lb le false false false _).errors_ext he
-      (fun e => ⟨lay_loopWrap (loopBody g lbody) (specLoopBody false rg lbody) (LoopStmt.lowerL lbody) (LoopStmt.hasRetL lbody)
+    exact bodyj_cons (IfLoopStmt.lowerL true tl) (steps_loopWrap _ (steps_loopBody g lbody) s).errors_ext (steps_ifLoopBody g tl lEnd lb le false false false _).errors_ext he
+      (fun e => ⟨lay_loopWrap (loopBody g lbody) (specLoopBody false rg lbody) (LoopStmt.lowerL true lbody) (LoopStmt.hasRetL lbody)
           (LoopStmt.nestedBrkL lbody) (some (lb, le, b)) (steps_loopBody g lbody)
           (fun lb le s ss => den_loopBody hg hn lbody lb le false false false hok.1 s ss)
-          (fun lb le b' s ss d e hb' => lay_loopBody hg hn lbody lb le b' false false false hok.1 hb' hf2.1 hf3.1.2 (fun _ => rfl) s ss d e)
+          (fun lb le b' s ss d e hb' => lay_loopBody hg hn lbody lb le b' false false false hok.1 hb' hf3.1.2 (fun _ => rfl) s ss d e)
           (fun lb le s h => by rcases ret_loopBody g lbody lb le false false false s h with h | h; cases h; exact h)
           hf3.1.1 s ss hr e,
         (den_loopWrap _ (specLoopBody false rg lbody) (steps_loopBody g lbody)
           (fun lb le s ss => den_loopBody hg hn lbody lb le false false false hok.1 s ss) s ss hr e).1⟩)
-      (fun d e => lay_ifLoopBody hg hn tl lEnd lb le b false false false hok.2 hbrk hf2.2 hf3.2 (fun _ => rfl) _ _ d e)
+      (fun d e => lay_ifLoopBody hg hn tl lEnd lb le b false false false hok.2 hbrk hf3.2 (fun _ => rfl) _ _ d e)
   | .ifS i :: tl, lEnd, lb, le, b, rc, bc, cc => by
-    intro hok hbrk hf2 hf3 _ s ss hr he
+    intro hok hbrk hf3 _ s ss hr he
     cases tl with
-    | cons x tl' => unfold IfLoopStmt.f2L at hf2; cases hf2
+    | cons x tl' =>
+      unfold IfLoopStmt.anaOKL at hok; unfold IfLoopStmt.hasBrkL at hbrk; unfold IfLoopStmt.f3L at hf3
+      simp only [Bool.and_eq_true] at hok
+      simp only [Bool.or_eq_false_iff] at hf3
+      unfold ifLoopBody at he ⊢
+      dsimp only at he ⊢
+      have x1 := (steps_ifCondition g i (some lEnd) (some (lb, le)) (forbidden rc bc cc s)).errors_ext
+      have x2 := (steps_ifLoopBody g (x :: tl') lEnd lb le rc bc cc (ifCondition g i (some lEnd) (some (lb, le)) (forbidden rc bc cc s))).errors_ext
+      obtain ⟨h1, h2, h3, _, _⟩ := cons_facts rc bc cc x1 x2 he
+      subst h1; subst h2; subst h3
+      rw [forbidden_fff] at he x1 x2 ⊢
+      obtain ⟨e1, e2⟩ := chain2 x1 x2 he
+      obtain ⟨_, hpass⟩ := lay_ifCondition hg hn i (some lEnd) (some (lb, le)) b hok.1 (fun h => hbrk (by simp [h])) hf3.1 s ss hr e1
+      have hp := hpass lEnd rfl
+      have d1 := (den_ifCondition (R := R) hg hn i (some lEnd) (some (lb, le)) hok.1 s ss hr e1).1
+      have ih := lay_ifLoopBody hg hn (x :: tl') lEnd lb le b false false false hok.2 (fun h => hbrk (by simp [h])) hf3.2 (fun h => by cases h) _ _ d1 e2
+      rw [low_ifl_if]
+      simp only [List.isEmpty_cons, Bool.false_eq_true, if_false]
+      rw [hp.eff] at ih
+      exact bodyj_dead hp ih
     | nil =>
-      unfold IfLoopStmt.anaOKL at hok; unfold IfLoopStmt.hasBrkL at hbrk; unfold IfLoopStmt.f2L at hf2; unfold IfLoopStmt.f3L at hf3
+      unfold IfLoopStmt.anaOKL at hok; unfold IfLoopStmt.hasBrkL at hbrk; unfold IfLoopStmt.f3L at hf3
       simp only [Bool.and_eq_true] at hok
       simp only [Bool.or_eq_false_iff] at hf3
       unfold ifLoopBody at he ⊢
@@ -1330,7 +1391,7 @@ theorem lay_ifLoopBody (hg : GlobRel g rg) (hn : GNames g) : ∀ (l : List IfLoo
       rw [forbidden_fff] at he ⊢
       try rw [hnil false false false] at he ⊢
       dsimp only at he ⊢
-      obtain ⟨_, hpass⟩ := lay_ifCondition hg hn i (some lEnd) (some (lb, le)) b hok.1 (fun h => hbrk (by simp [h])) hf2 hf3.1 s ss hr he
+      obtain ⟨_, hpass⟩ := lay_ifCondition hg hn i (some lEnd) (some (lb, le)) b hok.1 (fun h => hbrk (by simp [h])) hf3.1 s ss hr he
       obtain ⟨seg, c1, n1, l1⟩ := hpass lEnd rfl
       rw [low_ifl_if, low_ifl_nil]
       refine ⟨seg, c1, by simpa using n1, ?_⟩
@@ -1338,8 +1399,8 @@ theorem lay_ifLoopBody (hg : GlobRel g rg) (hn : GNames g) : ∀ (l : List IfLoo
       have := Lay.dead [Instr.jumpTo lEnd] l1'
       simpa using this
   | .ret e :: tl, lEnd, lb, le, b, rc, bc, cc => by
-    intro hok hbrk hf2 hf3 _ s ss hr he
-    unfold IfLoopStmt.anaOKL at hok; unfold IfLoopStmt.hasBrkL at hbrk; unfold IfLoopStmt.f2L at hf2; unfold IfLoopStmt.f3L at hf3
+    intro hok hbrk hf3 _ s ss hr he
+    unfold IfLoopStmt.anaOKL at hok; unfold IfLoopStmt.hasBrkL at hbrk; unfold IfLoopStmt.f3L at hf3
     unfold ifLoopBody at he ⊢
     dsimp only at he ⊢
     have x1 := (steps_nestedReturn g e (forbidden rc bc cc s)).errors_ext
@@ -1362,11 +1423,11 @@ theorem lay_ifLoopBody (hg : GlobRel g rg) (hn : GNames g) : ∀ (l : List IfLoo
       have := RetV.body (lEnd := lEnd) (res := ((nestedReturn g e s).1, true)) jr
       simpa using this
     | cons x tl' =>
-      have ih := lay_ifLoopBody hg hn (x :: tl') lEnd lb le b true false false hok hbrk hf2 hf3 (fun h => by cases h) _ _ jd e2
+      have ih := lay_ifLoopBody hg hn (x :: tl') lEnd lb le b true false false hok hbrk hf3 (fun h => by cases h) _ _ jd e2
       exact jr.cps.thenBody (by rw [jr.cps.eff] at ih; exact ih)
   | .brk :: tl, lEnd, lb, le, b, rc, bc, cc => by
-    intro hok hbrk hf2 hf3 _ s ss hr he
-    unfold IfLoopStmt.anaOKL at hok; unfold IfLoopStmt.hasBrkL at hbrk; unfold IfLoopStmt.f2L at hf2; unfold IfLoopStmt.f3L at hf3
+    intro hok hbrk hf3 _ s ss hr he
+    unfold IfLoopStmt.anaOKL at hok; unfold IfLoopStmt.hasBrkL at hbrk; unfold IfLoopStmt.f3L at hf3
     have hb : b = true := hbrk rfl
     unfold ifLoopBody at he ⊢
     dsimp only at he ⊢
@@ -1391,11 +1452,11 @@ theorem lay_ifLoopBody (hg : GlobRel g rg) (hn : GNames g) : ∀ (l : List IfLoo
       have := RetV.body (lEnd := lEnd) (res := (s.push (Instr.jumpTo le), false)) jr
       simpa using this
     | cons x tl' =>
-      have ih := lay_ifLoopBody hg hn (x :: tl') lEnd lb le b false true false hok (fun _ => hb) hf2 hf3 (fun h => by cases h) _ _ jd e2
+      have ih := lay_ifLoopBody hg hn (x :: tl') lEnd lb le b false true false hok (fun _ => hb) hf3 (fun h => by cases h) _ _ jd e2
       exact jr.cps.thenBody (by rw [jr.cps.eff] at ih; exact ih)
   | .cont :: tl, lEnd, lb, le, b, rc, bc, cc => by
-    intro hok hbrk hf2 hf3 _ s ss hr he
-    unfold IfLoopStmt.anaOKL at hok; unfold IfLoopStmt.hasBrkL at hbrk; unfold IfLoopStmt.f2L at hf2; unfold IfLoopStmt.f3L at hf3
+    intro hok hbrk hf3 _ s ss hr he
+    unfold IfLoopStmt.anaOKL at hok; unfold IfLoopStmt.hasBrkL at hbrk; unfold IfLoopStmt.f3L at hf3
     
     unfold ifLoopBody at he ⊢
     dsimp only at he ⊢
@@ -1420,96 +1481,96 @@ theorem lay_ifLoopBody (hg : GlobRel g rg) (hn : GNames g) : ∀ (l : List IfLoo
       have := RetV.body (lEnd := lEnd) (res := (s.push (Instr.jumpTo lb), false)) jr
       simpa using this
     | cons x tl' =>
-      have ih := lay_ifLoopBody hg hn (x :: tl') lEnd lb le b false false true hok hbrk hf2 hf3 (fun h => by cases h) _ _ jd e2
+      have ih := lay_ifLoopBody hg hn (x :: tl') lEnd lb le b false false true hok hbrk hf3 (fun h => by cases h) _ _ jd e2
       exact jr.cps.thenBody (by rw [jr.cps.eff] at ih; exact ih)
 theorem lay_loopBody (hg : GlobRel g rg) (hn : GNames g) : ∀ (l : List LoopStmt) (lb le : Name) (b rc bc cc : Bool),
-    LoopStmt.anaOKL l = true → (LoopStmt.nestedBrkL l = true → b = true) → LoopStmt.f2L l = false →
+    LoopStmt.anaOKL l = true → (LoopStmt.nestedBrkL l = true → b = true) →
     LoopStmt.f3L l = false → (l = [] → rc = false) →
     ∀ s ss, DRel g R s ss → (loopBody g l lb le rc bc cc s).1.errors = s.errors →
-      CPSv (some (lb, le, b)) s (loopBody g l lb le rc bc cc s).1 (LoopStmt.lowerL l (effCount s.root.context)) ∧
-      ((loopBody g l lb le rc bc cc s).2 = true → endsRet (LoopStmt.lowerL l (effCount s.root.context)).1 = true)
+      CPSv (some (lb, le, b)) s (loopBody g l lb le rc bc cc s).1 (LoopStmt.lowerL true l (effCount s.root.context)) ∧
+      ((loopBody g l lb le rc bc cc s).2 = true → endsRet (LoopStmt.lowerL true l (effCount s.root.context)).1 = true)
   | [], lb, le, b, rc, bc, cc => by
-    intro _ _ _ _ hrc s ss hr _
+    intro _ _ _ hrc s ss hr _
     have : rc = false := hrc rfl
     subst this
     unfold loopBody
     rw [low_lp_nil]
     exact ⟨CPSv.same rfl, fun h => by cases h⟩
   | .letB bd :: tl, lb, le, b, rc, bc, cc => by
-    intro hok hbrk hf2 hf3 _ s ss hr he
-    unfold LoopStmt.anaOKL at hok; unfold LoopStmt.nestedBrkL at hbrk; unfold LoopStmt.f2L at hf2; unfold LoopStmt.f3L at hf3
+    intro hok hbrk hf3 _ s ss hr he
+    unfold LoopStmt.anaOKL at hok; unfold LoopStmt.nestedBrkL at hbrk; unfold LoopStmt.f3L at hf3
     unfold loopBody at he ⊢
     dsimp only at he ⊢
     obtain ⟨h1, h2, h3, _, _⟩ := cons_facts rc bc cc (esteps_letBinding g bd _).errors_ext (steps_loopBody g tl lb le rc bc cc _).errors_ext he
     subst h1; subst h2; subst h3
     rw [forbidden_fff] at he ⊢
     rw [low_lp_let]
-    exact cpsl_cons (LoopStmt.lowerL tl) (esteps_letBinding g bd s).errors_ext (steps_loopBody g tl lb le false false false _).errors_ext he
+    exact cpsl_cons (LoopStmt.lowerL true tl) (esteps_letBinding g bd s).errors_ext (steps_loopBody g tl lb le false false false _).errors_ext he
       (fun e => ⟨cpsv_of (cps_let hg hn _ bd s ss hr e), den_let hg hn bd s ss hr e⟩)
-      (fun d e => lay_loopBody hg hn tl lb le b false false false hok hbrk hf2 hf3 (fun _ => rfl) _ _ d e)
+      (fun d e => lay_loopBody hg hn tl lb le b false false false hok hbrk hf3 (fun _ => rfl) _ _ d e)
   | .bind bd :: tl, lb, le, b, rc, bc, cc => by
-    intro hok hbrk hf2 hf3 _ s ss hr he
-    unfold LoopStmt.anaOKL at hok; unfold LoopStmt.nestedBrkL at hbrk; unfold LoopStmt.f2L at hf2; unfold LoopStmt.f3L at hf3
+    intro hok hbrk hf3 _ s ss hr he
+    unfold LoopStmt.anaOKL at hok; unfold LoopStmt.nestedBrkL at hbrk; unfold LoopStmt.f3L at hf3
     unfold loopBody at he ⊢
     dsimp only at he ⊢
     obtain ⟨h1, h2, h3, _, _⟩ := cons_facts rc bc cc (esteps_binding g bd _).errors_ext (steps_loopBody g tl lb le rc bc cc _).errors_ext he
     subst h1; subst h2; subst h3
     rw [forbidden_fff] at he ⊢
     rw [low_lp_bind]
-    exact cpsl_cons (LoopStmt.lowerL tl) (esteps_binding g bd s).errors_ext (steps_loopBody g tl lb le false false false _).errors_ext he
+    exact cpsl_cons (LoopStmt.lowerL true tl) (esteps_binding g bd s).errors_ext (steps_loopBody g tl lb le false false false _).errors_ext he
       (fun e => ⟨cpsv_of (cps_bind hg hn _ bd s ss hr e), den_bind hg hn bd s ss hr e⟩)
-      (fun d e => lay_loopBody hg hn tl lb le b false false false hok hbrk hf2 hf3 (fun _ => rfl) _ _ d e)
+      (fun d e => lay_loopBody hg hn tl lb le b false false false hok hbrk hf3 (fun _ => rfl) _ _ d e)
   | .call c :: tl, lb, le, b, rc, bc, cc => by
-    intro hok hbrk hf2 hf3 _ s ss hr he
-    unfold LoopStmt.anaOKL at hok; unfold LoopStmt.nestedBrkL at hbrk; unfold LoopStmt.f2L at hf2; unfold LoopStmt.f3L at hf3
+    intro hok hbrk hf3 _ s ss hr he
+    unfold LoopStmt.anaOKL at hok; unfold LoopStmt.nestedBrkL at hbrk; unfold LoopStmt.f3L at hf3
     unfold loopBody at he ⊢
     dsimp only at he ⊢
     obtain ⟨h1, h2, h3, _, _⟩ := cons_facts rc bc cc (esteps_callStmt g c _).errors_ext (steps_loopBody g tl lb le rc bc cc _).errors_ext he
     subst h1; subst h2; subst h3
     rw [forbidden_fff] at he ⊢
     rw [low_lp_call]
-    exact cpsl_cons (LoopStmt.lowerL tl) (esteps_callStmt g c s).errors_ext (steps_loopBody g tl lb le false false false _).errors_ext he
+    exact cpsl_cons (LoopStmt.lowerL true tl) (esteps_callStmt g c s).errors_ext (steps_loopBody g tl lb le false false false _).errors_ext he
       (fun e => ⟨cpsv_of (cps_callS hg hn _ c s ss hr e), den_callS hg hn c s ss hr e⟩)
-      (fun d e => lay_loopBody hg hn tl lb le b false false false hok hbrk hf2 hf3 (fun _ => rfl) _ _ d e)
+      (fun d e => lay_loopBody hg hn tl lb le b false false false hok hbrk hf3 (fun _ => rfl) _ _ d e)
   | .loop lbody :: tl, lb, le, b, rc, bc, cc => by
-    intro hok hbrk hf2 hf3 _ s ss hr he
-    unfold LoopStmt.anaOKL at hok; unfold LoopStmt.nestedBrkL at hbrk; unfold LoopStmt.f2L at hf2; unfold LoopStmt.f3L at hf3
+    intro hok hbrk hf3 _ s ss hr he
+    unfold LoopStmt.anaOKL at hok; unfold LoopStmt.nestedBrkL at hbrk; unfold LoopStmt.f3L at hf3
     simp only [Bool.and_eq_true] at hok
-    simp only [Bool.or_eq_false_iff] at hf2 hf3
+    simp only [Bool.or_eq_false_iff] at hf3
     unfold loopBody at he ⊢
     dsimp only at he ⊢
     obtain ⟨h1, h2, h3, _, _⟩ := cons_facts rc bc cc (steps_loopWrap _ (steps_loopBody g lbody) _).errors_ext (steps_loopBody g tl lb le rc bc cc _).errors_ext he
     subst h1; subst h2; subst h3
     rw [forbidden_fff] at he ⊢
     rw [low_lp_loop]
-    exact cpsl_cons (LoopStmt.lowerL tl) (steps_loopWrap _ (steps_loopBody g lbody) s).errors_ext (steps_loopBody g tl lb le false false false _).errors_ext he
-      (fun e => ⟨lay_loopWrap (loopBody g lbody) (specLoopBody false rg lbody) (LoopStmt.lowerL lbody) (LoopStmt.hasRetL lbody)
+    exact cpsl_cons (LoopStmt.lowerL true tl) (steps_loopWrap _ (steps_loopBody g lbody) s).errors_ext (steps_loopBody g tl lb le false false false _).errors_ext he
+      (fun e => ⟨lay_loopWrap (loopBody g lbody) (specLoopBody false rg lbody) (LoopStmt.lowerL true lbody) (LoopStmt.hasRetL lbody)
           (LoopStmt.nestedBrkL lbody) (some (lb, le, b)) (steps_loopBody g lbody)
           (fun lb le s ss => den_loopBody hg hn lbody lb le false false false hok.1 s ss)
-          (fun lb le b' s ss d e hb' => lay_loopBody hg hn lbody lb le b' false false false hok.1 hb' hf2.1 hf3.1.2 (fun _ => rfl) s ss d e)
+          (fun lb le b' s ss d e hb' => lay_loopBody hg hn lbody lb le b' false false false hok.1 hb' hf3.1.2 (fun _ => rfl) s ss d e)
           (fun lb le s h => by rcases ret_loopBody g lbody lb le false false false s h with h | h; cases h; exact h)
           hf3.1.1 s ss hr e,
         (den_loopWrap _ (specLoopBody false rg lbody) (steps_loopBody g lbody)
           (fun lb le s ss => den_loopBody hg hn lbody lb le false false false hok.1 s ss) s ss hr e).1⟩)
-      (fun d e => lay_loopBody hg hn tl lb le b false false false hok.2 hbrk hf2.2 hf3.2 (fun _ => rfl) _ _ d e)
+      (fun d e => lay_loopBody hg hn tl lb le b false false false hok.2 hbrk hf3.2 (fun _ => rfl) _ _ d e)
   | .ifS i :: tl, lb, le, b, rc, bc, cc => by
-    intro hok hbrk hf2 hf3 _ s ss hr he
-    unfold LoopStmt.anaOKL at hok; unfold LoopStmt.nestedBrkL at hbrk; unfold LoopStmt.f2L at hf2; unfold LoopStmt.f3L at hf3
+    intro hok hbrk hf3 _ s ss hr he
+    unfold LoopStmt.anaOKL at hok; unfold LoopStmt.nestedBrkL at hbrk; unfold LoopStmt.f3L at hf3
     simp only [Bool.and_eq_true] at hok
-    simp only [Bool.or_eq_false_iff] at hf2 hf3
+    simp only [Bool.or_eq_false_iff] at hf3
     unfold loopBody at he ⊢
     dsimp only at he ⊢
     obtain ⟨h1, h2, h3, _, _⟩ := cons_facts rc bc cc (steps_ifCondition g i none (some (lb, le)) _).errors_ext (steps_loopBody g tl lb le rc bc cc _).errors_ext he
     subst h1; subst h2; subst h3
     rw [forbidden_fff] at he ⊢
     rw [low_lp_if]
-    exact cpsl_cons (LoopStmt.lowerL tl) (steps_ifCondition g i none (some (lb, le)) s).errors_ext (steps_loopBody g tl lb le false false false _).errors_ext he
-      (fun e => ⟨(lay_ifCondition hg hn i none (some (lb, le)) b hok.1 (fun h => hbrk (by simp [h])) hf2.1 hf3.1 s ss hr e).1 rfl,
+    exact cpsl_cons (LoopStmt.lowerL true tl) (steps_ifCondition g i none (some (lb, le)) s).errors_ext (steps_loopBody g tl lb le false false false _).errors_ext he
+      (fun e => ⟨(lay_ifCondition hg hn i none (some (lb, le)) b hok.1 (fun h => hbrk (by simp [h])) hf3.1 s ss hr e).1 rfl,
         (den_ifCondition hg hn i none (some (lb, le)) hok.1 s ss hr e).1⟩)
-      (fun d e => lay_loopBody hg hn tl lb le b false false false hok.2 (fun h => hbrk (by simp [h])) hf2.2 hf3.2 (fun _ => rfl) _ _ d e)
+      (fun d e => lay_loopBody hg hn tl lb le b false false false hok.2 (fun h => hbrk (by simp [h])) hf3.2 (fun _ => rfl) _ _ d e)
   | .ret e :: tl, lb, le, b, rc, bc, cc => by
-    intro hok hbrk hf2 hf3 _ s ss hr he
-    unfold LoopStmt.anaOKL at hok; unfold LoopStmt.nestedBrkL at hbrk; unfold LoopStmt.f2L at hf2; unfold LoopStmt.f3L at hf3
+    intro hok hbrk hf3 _ s ss hr he
+    unfold LoopStmt.anaOKL at hok; unfold LoopStmt.nestedBrkL at hbrk; unfold LoopStmt.f3L at hf3
     unfold loopBody at he ⊢
     dsimp only at he ⊢
     have x1 := (steps_nestedReturn g e (forbidden rc bc cc s)).errors_ext
@@ -1533,12 +1594,12 @@ theorem lay_loopBody (hg : GlobRel g rg) (hn : GNames g) : ∀ (l : List LoopStm
       · simpa using jr.cps
       · simpa using endsRet_lowerRet e (effCount s.root.context)
     | cons x tl' =>
-      have ih := lay_loopBody hg hn (x :: tl') lb le b true false false hok hbrk hf2 hf3 (fun h => by cases h) _ _ jd e2
+      have ih := lay_loopBody hg hn (x :: tl') lb le b true false false hok hbrk hf3 (fun h => by cases h) _ _ jd e2
       refine ⟨jr.cps.trans (by have := ih.1; rw [jr.cps.eff] at this; exact this), fun hr' => endsRet_append _ _ ?_⟩
       have := ih.2 hr'; rw [jr.cps.eff] at this; exact this
   | .brk :: tl, lb, le, b, rc, bc, cc => by
-    intro hok hbrk hf2 hf3 _ s ss hr he
-    unfold LoopStmt.anaOKL at hok; unfold LoopStmt.nestedBrkL at hbrk; unfold LoopStmt.f2L at hf2; unfold LoopStmt.f3L at hf3
+    intro hok hbrk hf3 _ s ss hr he
+    unfold LoopStmt.anaOKL at hok; unfold LoopStmt.nestedBrkL at hbrk; unfold LoopStmt.f3L at hf3
     have hb : b = true := hbrk rfl
     unfold loopBody at he ⊢
     dsimp only at he ⊢
@@ -1563,12 +1624,12 @@ theorem lay_loopBody (hg : GlobRel g rg) (hn : GNames g) : ∀ (l : List LoopStm
       refine ⟨?_, fun h => by cases h⟩
       simpa using jr.cps
     | cons x tl' =>
-      have ih := lay_loopBody hg hn (x :: tl') lb le b false true false hok (fun _ => hb) hf2 hf3 (fun h => by cases h) _ _ jd e2
+      have ih := lay_loopBody hg hn (x :: tl') lb le b false true false hok (fun _ => hb) hf3 (fun h => by cases h) _ _ jd e2
       refine ⟨jr.cps.trans (by have := ih.1; rw [jr.cps.eff] at this; exact this), fun hr' => endsRet_append _ _ ?_⟩
       have := ih.2 hr'; rw [jr.cps.eff] at this; exact this
   | .cont :: tl, lb, le, b, rc, bc, cc => by
-    intro hok hbrk hf2 hf3 _ s ss hr he
-    unfold LoopStmt.anaOKL at hok; unfold LoopStmt.nestedBrkL at hbrk; unfold LoopStmt.f2L at hf2; unfold LoopStmt.f3L at hf3
+    intro hok hbrk hf3 _ s ss hr he
+    unfold LoopStmt.anaOKL at hok; unfold LoopStmt.nestedBrkL at hbrk; unfold LoopStmt.f3L at hf3
     
     unfold loopBody at he ⊢
     dsimp only at he ⊢
@@ -1593,7 +1654,7 @@ theorem lay_loopBody (hg : GlobRel g rg) (hn : GNames g) : ∀ (l : List LoopStm
       refine ⟨?_, fun h => by cases h⟩
       simpa using jr.cps
     | cons x tl' =>
-      have ih := lay_loopBody hg hn (x :: tl') lb le b false false true hok hbrk hf2 hf3 (fun h => by cases h) _ _ jd e2
+      have ih := lay_loopBody hg hn (x :: tl') lb le b false false true hok hbrk hf3 (fun h => by cases h) _ _ jd e2
       refine ⟨jr.cps.trans (by have := ih.1; rw [jr.cps.eff] at this; exact this), fun hr' => endsRet_append _ _ ?_⟩
       have := ih.2 hr'; rw [jr.cps.eff] at this; exact this
 end
@@ -1614,92 +1675,92 @@ theorem cnt_specParams : ∀ (ps : List (Name × ATy)) (s : SpecSt), countEff (s
     simp [SpecSt.declare, SpecSt.emit, countEff, DStmt.isEff]
 
 theorem lay_bodyStmts (hg : GlobRel g rg) (hn : GNames g) (resTy : Ty) : ∀ (l : List BodyStmt) (rc : Bool),
-    BodyStmt.anaOKL l = true → BodyStmt.f2L l = false → BodyStmt.f3L l = false → (l = [] → rc = false) →
+    BodyStmt.anaOKL l = true → BodyStmt.f3L l = false → (l = [] → rc = false) →
     ∀ s ss, DRel g resTy s ss → (bodyStmts g resTy l rc s).1.errors = s.errors →
-      CPSv none s (bodyStmts g resTy l rc s).1 (BodyStmt.lowerL l (effCount s.root.context)) ∧
-      ((bodyStmts g resTy l rc s).2 = true → endsRet (BodyStmt.lowerL l (effCount s.root.context)).1 = true)
+      CPSv none s (bodyStmts g resTy l rc s).1 (BodyStmt.lowerL true l (effCount s.root.context)) ∧
+      ((bodyStmts g resTy l rc s).2 = true → endsRet (BodyStmt.lowerL true l (effCount s.root.context)).1 = true)
   | [], rc => by
-    intro _ _ _ hrc s ss hr _
+    intro _ _ hrc s ss hr _
     have : rc = false := hrc rfl
     subst this
     unfold bodyStmts
     rw [low_fb_nil]
     exact ⟨CPSv.same rfl, fun h => by cases h⟩
   | .letB bd :: tl, rc => by
-    intro hok hf2 hf3 _ s ss hr he
-    unfold BodyStmt.anaOKL at hok; unfold BodyStmt.f2L at hf2; unfold BodyStmt.f3L at hf3
+    intro hok hf3 _ s ss hr he
+    unfold BodyStmt.anaOKL at hok; unfold BodyStmt.f3L at hf3
     unfold bodyStmts at he ⊢
     dsimp only at he ⊢
     obtain ⟨h1, _, _, _, _⟩ := cons_facts rc false false (esteps_letBinding g bd _).errors_ext (steps_bodyStmts g resTy tl rc _).errors_ext he
     subst h1
     rw [forbidden_fff] at he ⊢
     rw [low_fb_let]
-    exact cpsl_cons (BodyStmt.lowerL tl) (esteps_letBinding g bd s).errors_ext (steps_bodyStmts g resTy tl false _).errors_ext he
+    exact cpsl_cons (BodyStmt.lowerL true tl) (esteps_letBinding g bd s).errors_ext (steps_bodyStmts g resTy tl false _).errors_ext he
       (fun e => ⟨cpsv_of (cps_let hg hn _ bd s ss hr e), den_let hg hn bd s ss hr e⟩)
-      (fun d e => lay_bodyStmts hg hn resTy tl false hok hf2 hf3 (fun _ => rfl) _ _ d e)
+      (fun d e => lay_bodyStmts hg hn resTy tl false hok hf3 (fun _ => rfl) _ _ d e)
   | .bind bd :: tl, rc => by
-    intro hok hf2 hf3 _ s ss hr he
-    unfold BodyStmt.anaOKL at hok; unfold BodyStmt.f2L at hf2; unfold BodyStmt.f3L at hf3
+    intro hok hf3 _ s ss hr he
+    unfold BodyStmt.anaOKL at hok; unfold BodyStmt.f3L at hf3
     unfold bodyStmts at he ⊢
     dsimp only at he ⊢
     obtain ⟨h1, _, _, _, _⟩ := cons_facts rc false false (esteps_binding g bd _).errors_ext (steps_bodyStmts g resTy tl rc _).errors_ext he
     subst h1
     rw [forbidden_fff] at he ⊢
     rw [low_fb_bind]
-    exact cpsl_cons (BodyStmt.lowerL tl) (esteps_binding g bd s).errors_ext (steps_bodyStmts g resTy tl false _).errors_ext he
+    exact cpsl_cons (BodyStmt.lowerL true tl) (esteps_binding g bd s).errors_ext (steps_bodyStmts g resTy tl false _).errors_ext he
       (fun e => ⟨cpsv_of (cps_bind hg hn _ bd s ss hr e), den_bind hg hn bd s ss hr e⟩)
-      (fun d e => lay_bodyStmts hg hn resTy tl false hok hf2 hf3 (fun _ => rfl) _ _ d e)
+      (fun d e => lay_bodyStmts hg hn resTy tl false hok hf3 (fun _ => rfl) _ _ d e)
   | .call c :: tl, rc => by
-    intro hok hf2 hf3 _ s ss hr he
-    unfold BodyStmt.anaOKL at hok; unfold BodyStmt.f2L at hf2; unfold BodyStmt.f3L at hf3
+    intro hok hf3 _ s ss hr he
+    unfold BodyStmt.anaOKL at hok; unfold BodyStmt.f3L at hf3
     unfold bodyStmts at he ⊢
     dsimp only at he ⊢
     obtain ⟨h1, _, _, _, _⟩ := cons_facts rc false false (esteps_callStmt g c _).errors_ext (steps_bodyStmts g resTy tl rc _).errors_ext he
     subst h1
     rw [forbidden_fff] at he ⊢
     rw [low_fb_call]
-    exact cpsl_cons (BodyStmt.lowerL tl) (esteps_callStmt g c s).errors_ext (steps_bodyStmts g resTy tl false _).errors_ext he
+    exact cpsl_cons (BodyStmt.lowerL true tl) (esteps_callStmt g c s).errors_ext (steps_bodyStmts g resTy tl false _).errors_ext he
       (fun e => ⟨cpsv_of (cps_callS hg hn _ c s ss hr e), den_callS hg hn c s ss hr e⟩)
-      (fun d e => lay_bodyStmts hg hn resTy tl false hok hf2 hf3 (fun _ => rfl) _ _ d e)
+      (fun d e => lay_bodyStmts hg hn resTy tl false hok hf3 (fun _ => rfl) _ _ d e)
   | .ifS i :: tl, rc => by
-    intro hok hf2 hf3 _ s ss hr he
-    unfold BodyStmt.anaOKL at hok; unfold BodyStmt.f2L at hf2; unfold BodyStmt.f3L at hf3
+    intro hok hf3 _ s ss hr he
+    unfold BodyStmt.anaOKL at hok; unfold BodyStmt.f3L at hf3
     simp only [Bool.and_eq_true] at hok
-    simp only [Bool.or_eq_false_iff] at hf2 hf3
+    simp only [Bool.or_eq_false_iff] at hf3
     unfold bodyStmts at he ⊢
     dsimp only at he ⊢
     obtain ⟨h1, _, _, _, _⟩ := cons_facts rc false false (steps_ifCondition g i none none _).errors_ext (steps_bodyStmts g resTy tl rc _).errors_ext he
     subst h1
     rw [forbidden_fff] at he ⊢
     rw [low_fb_if]
-    exact cpsl_cons (BodyStmt.lowerL tl) (steps_ifCondition g i none none s).errors_ext (steps_bodyStmts g resTy tl false _).errors_ext he
-      (fun e => ⟨(lay_ifCondition hg hn i none none true hok.1 (fun _ => rfl) hf2.1 hf3.1 s ss hr e).1 rfl,
+    exact cpsl_cons (BodyStmt.lowerL true tl) (steps_ifCondition g i none none s).errors_ext (steps_bodyStmts g resTy tl false _).errors_ext he
+      (fun e => ⟨(lay_ifCondition hg hn i none none true hok.1 (fun _ => rfl) hf3.1 s ss hr e).1 rfl,
         (den_ifCondition hg hn i none none hok.1 s ss hr e).1⟩)
-      (fun d e => lay_bodyStmts hg hn resTy tl false hok.2 hf2.2 hf3.2 (fun _ => rfl) _ _ d e)
+      (fun d e => lay_bodyStmts hg hn resTy tl false hok.2 hf3.2 (fun _ => rfl) _ _ d e)
   | .loop lbody :: tl, rc => by
-    intro hok hf2 hf3 _ s ss hr he
-    unfold BodyStmt.anaOKL at hok; unfold BodyStmt.f2L at hf2; unfold BodyStmt.f3L at hf3
+    intro hok hf3 _ s ss hr he
+    unfold BodyStmt.anaOKL at hok; unfold BodyStmt.f3L at hf3
     simp only [Bool.and_eq_true] at hok
-    simp only [Bool.or_eq_false_iff] at hf2 hf3
+    simp only [Bool.or_eq_false_iff] at hf3
     unfold bodyStmts at he ⊢
     dsimp only at he ⊢
     obtain ⟨h1, _, _, _, _⟩ := cons_facts rc false false (steps_loopWrap _ (steps_loopBody g lbody) _).errors_ext (steps_bodyStmts g resTy tl rc _).errors_ext he
     subst h1
     rw [forbidden_fff] at he ⊢
     rw [low_fb_loop]
-    exact cpsl_cons (BodyStmt.lowerL tl) (steps_loopWrap _ (steps_loopBody g lbody) s).errors_ext (steps_bodyStmts g resTy tl false _).errors_ext he
-      (fun e => ⟨lay_loopWrap (loopBody g lbody) (specLoopBody false rg lbody) (LoopStmt.lowerL lbody) (LoopStmt.hasRetL lbody)
+    exact cpsl_cons (BodyStmt.lowerL true tl) (steps_loopWrap _ (steps_loopBody g lbody) s).errors_ext (steps_bodyStmts g resTy tl false _).errors_ext he
+      (fun e => ⟨lay_loopWrap (loopBody g lbody) (specLoopBody false rg lbody) (LoopStmt.lowerL true lbody) (LoopStmt.hasRetL lbody)
           (LoopStmt.nestedBrkL lbody) none (steps_loopBody g lbody)
           (fun lb le s ss => den_loopBody hg hn lbody lb le false false false hok.1 s ss)
-          (fun lb le b' s ss d e hb' => lay_loopBody hg hn lbody lb le b' false false false hok.1 hb' hf2.1 hf3.1.2 (fun _ => rfl) s ss d e)
+          (fun lb le b' s ss d e hb' => lay_loopBody hg hn lbody lb le b' false false false hok.1 hb' hf3.1.2 (fun _ => rfl) s ss d e)
           (fun lb le s h => by rcases ret_loopBody g lbody lb le false false false s h with h | h; cases h; exact h)
           hf3.1.1 s ss hr e,
         (den_loopWrap _ (specLoopBody false rg lbody) (steps_loopBody g lbody)
           (fun lb le s ss => den_loopBody hg hn lbody lb le false false false hok.1 s ss) s ss hr e).1⟩)
-      (fun d e => lay_bodyStmts hg hn resTy tl false hok.2 hf2.2 hf3.2 (fun _ => rfl) _ _ d e)
+      (fun d e => lay_bodyStmts hg hn resTy tl false hok.2 hf3.2 (fun _ => rfl) _ _ d e)
   | .expr e :: tl, rc => by
-    intro hok hf2 hf3 _ s ss hr he
-    unfold BodyStmt.anaOKL at hok; unfold BodyStmt.f2L at hf2; unfold BodyStmt.f3L at hf3
+    intro hok hf3 _ s ss hr he
+    unfold BodyStmt.anaOKL at hok; unfold BodyStmt.f3L at hf3
     unfold bodyStmts at he ⊢
     dsimp only at he ⊢
     have x1 := (steps_fnReturn g resTy e rc (forbidden rc false false s)).errors_ext
@@ -1721,12 +1782,12 @@ theorem lay_bodyStmts (hg : GlobRel g rg) (hn : GNames g) (resTy : Ty) : ∀ (l 
       · simpa using jr.cps
       · simpa using endsRet_lowerRet e (effCount s.root.context)
     | cons x tl' =>
-      have ih := lay_bodyStmts hg hn resTy (x :: tl') true hok hf2 hf3 (fun h => by cases h) _ _ jd e2
+      have ih := lay_bodyStmts hg hn resTy (x :: tl') true hok hf3 (fun h => by cases h) _ _ jd e2
       refine ⟨jr.cps.trans (by have := ih.1; rw [jr.cps.eff] at this; exact this), fun hr' => endsRet_append _ _ ?_⟩
       have := ih.2 hr'; rw [jr.cps.eff] at this; exact this
   | .ret e :: tl, rc => by
-    intro hok hf2 hf3 _ s ss hr he
-    unfold BodyStmt.anaOKL at hok; unfold BodyStmt.f2L at hf2; unfold BodyStmt.f3L at hf3
+    intro hok hf3 _ s ss hr he
+    unfold BodyStmt.anaOKL at hok; unfold BodyStmt.f3L at hf3
     unfold bodyStmts at he ⊢
     dsimp only at he ⊢
     have x1 := (steps_fnReturn g resTy e rc (forbidden rc false false s)).errors_ext
@@ -1748,18 +1809,18 @@ theorem lay_bodyStmts (hg : GlobRel g rg) (hn : GNames g) (resTy : Ty) : ∀ (l 
       · simpa using jr.cps
       · simpa using endsRet_lowerRet e (effCount s.root.context)
     | cons x tl' =>
-      have ih := lay_bodyStmts hg hn resTy (x :: tl') true hok hf2 hf3 (fun h => by cases h) _ _ jd e2
+      have ih := lay_bodyStmts hg hn resTy (x :: tl') true hok hf3 (fun h => by cases h) _ _ jd e2
       refine ⟨jr.cps.trans (by have := ih.1; rw [jr.cps.eff] at this; exact this), fun hr' => endsRet_append _ _ ?_⟩
       have := ih.2 hr'; rw [jr.cps.eff] at this; exact this
 
 /-- **T4, analyzer half** — the root stack of a function analysed without error, outside the
-findings F2 and F3, is a layout of the function's structured flow, which ends in a return -/
-theorem T4_function (hg : GlobRel g rg) (hn : GNames g) (f : FnDecl) (hok : BodyStmt.anaOKL f.body = true)
-    (hf2 : f.hasF2 = false) (hf3 : f.hasF3 = false) (he : (functionBody g f).errors = []) :
-    Lay none 0 f.flow (functionBody g f).root.context .fall ∧ endsRet f.flow = true := by
+finding F3, is a layout of the function's structured flow *under the F2 reading* (statements after
+a nested `if` in an if / else body are dead), which ends in a return -/
+theorem T4F2_function (hg : GlobRel g rg) (hn : GNames g) (f : FnDecl) (hok : BodyStmt.anaOKL f.body = true)
+    (hf3 : f.hasF3 = false) (he : (functionBody g f).errors = []) :
+    Lay none 0 f.flowF2 (functionBody g f).root.context .fall ∧ endsRet f.flowF2 = true := by
   unfold functionBody at he ⊢
-  unfold FnDecl.flow
-  unfold FnDecl.hasF2 at hf2
+  unfold FnDecl.flowF2
   unfold FnDecl.hasF3 at hf3
   dsimp only at he ⊢
   have x1 := (esteps_initParams f.params St.init paramInv_init).errors_ext
@@ -1767,7 +1828,7 @@ theorem T4_function (hg : GlobRel g rg) (hn : GNames g) (f : FnDecl) (hok : Body
   have st1 := esteps_initParams f.params St.init paramInv_init
   generalize initParams f.params St.init = s1 at he x1 h1 st1 ⊢
   have x2 := (steps_bodyStmts g f.result.toTy f.body false s1).errors_ext
-  have l2 := lay_bodyStmts hg hn f.result.toTy f.body false hok hf2 hf3 (fun _ => rfl) s1 (specParams f.params SpecSt.init)
+  have l2 := lay_bodyStmts hg hn f.result.toTy f.body false hok hf3 (fun _ => rfl) s1 (specParams f.params SpecSt.init)
   generalize bodyStmts g f.result.toTy f.body false s1 = q at he x2 l2 ⊢
   obtain ⟨s2, rc⟩ := q
   dsimp only at he x2 l2 ⊢
@@ -1804,6 +1865,13 @@ theorem T4_function (hg : GlobRel g rg) (hn : GNames g) (f : FnDecl) (hok : Body
   rw [hs1e] at this
   rw [cs2, cs1]
   simpa [evs] using this
+
+/-- outside the findings F2 and F3 the root stack is a layout of the function's structured flow -/
+theorem T4_function (hg : GlobRel g rg) (hn : GNames g) (f : FnDecl) (hok : BodyStmt.anaOKL f.body = true)
+    (hf2 : f.hasF2 = false) (hf3 : f.hasF3 = false) (he : (functionBody g f).errors = []) :
+    Lay none 0 f.flow (functionBody g f).root.context .fall ∧ endsRet f.flow = true := by
+  rw [← flowF2_eq f hf2]
+  exact T4F2_function hg hn f hok hf3 he
 
 end fnLevel
 
